@@ -293,7 +293,7 @@ class State:
     def __init__(s): s.store={}; s.facts=[]; s.subst={}
     def clone(s):
         import copy
-        n=State(); n.facts=list(s.facts); n.subst=dict(s.subst); n.even=set(getattr(s,'even',())); n.signs=dict(getattr(s,'signs',{}))
+        n=State(); n.facts=list(s.facts); n.subst=dict(s.subst); n.even=set(getattr(s,'even',())); n.signs=dict(getattr(s,'signs',{})); n.loopinv=dict(getattr(s,'loopinv',{}))
         memo={}
         n.store=copy.deepcopy(s.store,memo)
         return n
@@ -327,8 +327,10 @@ def loop_headers(fn):
         if not adv:
             color[b]=2; stack.pop()
     return heads
+class LoopRetry(Exception): pass
 class An:
-    def __init__(self,fn,kind,lift=False,arg_offset=0,scale_params=()):
+    def __init__(self,fn,kind,lift=False,arg_offset=0,scale_params=(),int_dims=None):
+        self.int_dims=dict(int_dims or {}); self.loop_exclude={}
         self.fn=fn; self.kind=kind; self.viol=[]; self.undec=[]; self.ok=0; self.paths=0; self.lift=lift; self.lifted=[]
         self.off=arg_offset; self.scale_params=set(scale_params); self.lossy_seen=[]; self.shortcut_ok=0; self.shortcuts=[]
     def fail(self,msg,rel=None,a=None,b=None):
@@ -378,6 +380,9 @@ class An:
     def run(self):
         s=State()
         for i in range(1,self.fn.argc+1): s.store[i]=self.mkarg(i)
+        for i,dm in self.int_dims.items():
+            v0=self.deref(s,s.store.get(i))
+            if isinstance(v0,IntV): v0.dim=dm
         for i in sorted(self.scale_params):
             if self.tyof(i).lstrip('&').startswith('u'): s.facts.append(('le',TERM0,('par',i)))     # unsigned parameter
         self.loop_heads=loop_headers(self.fn)
@@ -437,6 +442,59 @@ class An:
             elif last.get('n') in('int_val','digits'):
                 cur.ival=v if isinstance(v,IntV) else None
                 if not isinstance(v,IntV): cur.val=None
+    def loop_writes_precise(self,head):
+        """locals written while the loop runs: assigned in a block of the loop, mutably borrowed in such a block, or reachable
+        through a `&mut` local that a block of the loop writes through or passes to a call"""
+        cache=self.__dict__.setdefault('_lwp',{})
+        if head in cache: return cache[head]
+        fn=self.fn; live=fn.live_blocks()
+        fwd=set(); st=[head]
+        while st:
+            b=st.pop()
+            for t in fn.succ(b):
+                if t in live and t not in fwd: fwd.add(t); st.append(t)
+        pred={}
+        for b in live:
+            for t in fn.succ(b): pred.setdefault(t,set()).add(b)
+        back=set(); st=[head]
+        while st:
+            b=st.pop()
+            for q in pred.get(b,()):
+                if q in live and q not in back: back.add(q); st.append(q)
+        body=(fwd&back)|{head}
+        refs={}
+        for b in live:
+            for stt in fn.blocks[b]['st']:
+                if stt['s']=='assign' and not stt['lhs']['p'] and stt['rv']['r']=='ref':
+                    refs.setdefault(stt['lhs']['l'],set()).add((stt['rv']['pl']['l'],bool(stt['rv']['pl']['p'])))
+        def referents(l,seen=None):
+            seen=seen or set(); out=set()
+            for (x,proj) in refs.get(l,()):
+                if (x,proj) in seen: continue
+                seen.add((x,proj))
+                if proj: out|=referents(x,seen)
+                else: out.add(x)
+            return out
+        w=set()
+        for b in body:
+            blk=fn.blocks[b]
+            for stt in blk['st']:
+                if stt['s']!='assign': continue
+                if not stt['lhs']['p'] or stt['lhs']['p'][0]!='*': w.add(stt['lhs']['l'])
+                else: w|=referents(stt['lhs']['l'])
+                if stt['rv']['r']=='ref' and stt['rv'].get('mut'):
+                    pl=stt['rv']['pl']
+                    if not pl['p'] or pl['p'][0]!='*': w.add(pl['l'])
+                    else: w|=referents(pl['l'])
+            t=blk['term']
+            if t['t']=='call':
+                if t.get('dest'):
+                    if not t['dest']['p'] or t['dest']['p'][0]!='*': w.add(t['dest']['l'])
+                    else: w|=referents(t['dest']['l'])
+                for a in t['args']:
+                    if a.get('k') in('copy','move') and self.tyof(a['pl']['l']).startswith('&mut'): w|=referents(a['pl']['l'])
+        cache[head]=w
+        return w
     def loop_writes(self,head):
         """locals possibly written while the loop headed by `head` runs: assigned in a block of the loop (blocks that
         reach the header again), plus every local that is mutably borrowed anywhere in the function"""
@@ -478,6 +536,53 @@ class An:
             if bid in onpath: return
             for l in self.loop_writes(bid): s.store[l]=UNK
             self.havocked=getattr(self,'havocked',0)+1
+        elif bid in getattr(self,'loop_heads',()) and self.kind=='dims':
+            # inductive loop invariant of the bookkeeping: every tracked integer keeps a constant distance (in powers of ten)
+            # from the anchor scalar.  First arrival: replace the anchor by a fresh symbol, the others by symbol + distance.
+            # Back edge: the distances must be unchanged (a constant non-zero change is a definite mismatch).
+            inv=getattr(s,'loopinv',{})
+            def termof(v):
+                v=self.deref(s,v)
+                if isinstance(v,IntV): return v.dim if isterm(v.dim) else None
+                return v if isterm(v) and v[0]!='int' else None
+            if bid in onpath:
+                if bid not in inv: self.undec.append('loop'); return
+                anchor,offs=inv[bid]
+                ta=termof(s.store.get(anchor))
+                for l,off in offs.items():
+                    tl=termof(s.store.get(l))
+                    if ta is None or tl is None: self.loop_exclude.setdefault(bid,set()).add(l if tl is None else anchor); raise LoopRetry()
+                    diff=('sub',('sub',tl,ta),off)
+                    if prove_eq(s.facts,diff,TERM0): continue
+                    try: ld=lin(diff,s.facts)
+                    except Exception: ld=None
+                    if ld is not None and set(ld.keys())<={1} and ld.get(1,0)!=0:
+                        self.viol.append('LOOP STEP: in the loop at line %d `%s` moves %+d power(s) of ten relative to `%s` per iteration: the digits and the scale go out of step'%(self.fn.blocks[bid]['term'].get('loc',{}).get('line',0) or 0,self.fn.dbg.get(l,'_%d'%l),int(ld[1]),self.fn.dbg.get(anchor,'_%d'%anchor)))
+                        return
+                    self.loop_exclude.setdefault(bid,set()).add(l); raise LoopRetry()
+                self.loop_ok=getattr(self,'loop_ok',0)+1
+                return
+            writes=self.loop_writes_precise(bid); excl=self.loop_exclude.get(bid,set())
+            tracked={}
+            for l in sorted(writes):
+                if l in excl: continue
+                ty=self.tyof(l).lstrip('&')
+                v=self.deref(s,s.store.get(l,UNK))
+                if isinstance(v,IntV) and isterm(v.dim): tracked[l]=v.dim
+                elif ty in('i64','u64','i128','usize','u128','i32','u32') and isterm(v) and v[0]!='int': tracked[l]=v
+            scal=[l for l in tracked if not isinstance(self.deref(s,s.store.get(l)),IntV)]
+            anchor=(scal or sorted(tracked))[0] if tracked else None
+            sig=('unk','loop@bb%d'%bid)
+            offs={}
+            for l in writes:
+                if l in tracked and anchor is not None:
+                    off=('sub',tracked[l],tracked[anchor]); offs[l]=off
+                    nt=sig if l==anchor else ('add',sig,off)
+                    cur=self.deref(s,s.store.get(l))
+                    s.store[l]=IntV('lossy',nt) if isinstance(cur,IntV) else nt
+                else: s.store[l]=UNK
+            if anchor is not None:
+                inv=dict(inv); inv[bid]=(anchor,offs); s.loopinv=inv
         elif bid in onpath or bid in getattr(self,'loop_heads',()): self.undec.append('loop'); self.loops=getattr(self,'loops',0)+1; return
         onpath=onpath|{bid}
         for st in b['st']:
@@ -699,6 +804,8 @@ class An:
         if not (isinstance(a,IntV) and isinstance(b,IntV)): return None
         if a.val=='lossy' or b.val=='lossy' or a.val is None or b.val is None:
             if kind=='mul': return IntV('lossy' if 'lossy' in (a.val,b.val) else None,('add',a.dim,b.dim) if b.dim!=TERM0 else a.dim)
+            if self.kind=='dims' and kind in('add','sub') and isterm(a.dim) and isterm(b.dim) and not getattr(a,'anydim',False) and not getattr(b,'anydim',False) and not prove_eq(s.facts,a.dim,b.dim):
+                self.viol.append('DIM mismatch in int %s at line %d: the operands stand for different powers of ten (%s vs %s)'%(what,t['loc']['line'],show(a.dim),show(b.dim)))
             return IntV('lossy' if 'lossy' in (a.val,b.val) else None,a.dim)
         if kind in('add','sub','rem'):
             pa=getattr(a,'pow10',None); pb=getattr(b,'pow10',None)
@@ -735,6 +842,14 @@ class An:
             if not prove_le(s.facts,TERM0,k):
                 if self.fail('POW10 exponent not provably >=0 at line %d: %s'%(line,show(k)),'le',TERM0,k): s.facts.append(('le',TERM0,k))
             args[0].dim=('add',args[0].dim,k); v=('int',0)
+        elif self.kind=='dims' and tr in('std::ops::Mul','std::ops::MulAssign') and len(args)==2 and isinstance(args[0],IntV) and isinstance(args[1],tuple) and args[1] and args[1][0]=='int' and args[1][1] in(10,100,1000):
+            # dimension bookkeeping: multiplying the integer by 10^k while it keeps denoting the same quantity raises its power of ten by k
+            k={10:1,100:2,1000:3}[args[1][1]]
+            if tr.endswith('Assign'): args[0].dim=('add',args[0].dim,('int',k)); v=('int',0)
+            else: v=IntV(args[0].val if not isinstance(args[0].val,dict) else 'lossy',('add',args[0].dim,('int',k)))
+        elif self.kind=='dims' and tr=='std::ops::Neg' and args and isinstance(args[0],Rec): v=args[0]      # negation does not move the decimal point
+        elif self.kind=='dims' and res==self.fn.name:
+            u=('unk','rec@%d'%line); v=Rec(u,IntV('lossy',u),None,None,'rec@%d'%line)       # the function's own contract, assumed at recursive calls
         elif re.search(r'Roots::(nth_root|sqrt|cbrt)$|BigU?int::(nth_root|sqrt|cbrt)$',d) and args and isinstance(args[0],IntV):
             n_=3 if d.endswith('cbrt') else 2 if d.endswith('sqrt') else (args[1][1] if len(args)>1 and isinstance(args[1],tuple) and args[1][0]=='int' else None)
             v=IntV('lossy',('mulc',args[0].dim,Fraction(1,n_)) if n_ else ('unk','root@%d'%line)); self.lossy_seen.append(line)
@@ -907,8 +1022,8 @@ class An:
             x=args[0]
             if isinstance(x,Rec):
                 val=self.recval(s,x)
-                v=Rec(x.scale,IntV(padd({},x.ival.val,-1),x.ival.dim) if (x.ival is not None and x.sign is None) else (IntV(x.ival.val,x.ival.dim) if x.ival is not None else None),padd({},val,-1) if isinstance(val,dict) else None,padd({},x.sign,-1) if x.sign is not None else None,'neg@%d'%line)
-            elif isinstance(x,IntV): v=IntV(padd({},x.val,-1),x.dim)
+                v=Rec(x.scale,IntV(padd({},x.ival.val,-1) if isinstance(x.ival.val,dict) else x.ival.val,x.ival.dim) if (x.ival is not None and x.sign is None) else (IntV(x.ival.val,x.ival.dim) if x.ival is not None else None),padd({},val,-1) if isinstance(val,dict) else None,padd({},x.sign,-1) if x.sign is not None else None,'neg@%d'%line)
+            elif isinstance(x,IntV): v=IntV(padd({},x.val,-1) if isinstance(x.val,dict) else x.val,x.dim)
             elif isinstance(x,tuple) and x and x[0]=='signv': v=('signv',padd({},x[1],-1))
         elif re.search(r'Zero::zero$',d) and BIG.search(dest['ty']): v=IntV({},('unk','anydim')); v.anydim=True
         elif re.search(r'One::one$',d) and BIG.search(dest['ty']): v=IntV(P(1),TERM0)
@@ -939,12 +1054,17 @@ def kernels(F):
     return out
 
 
-def analyse(fn, kind, lift=False, arg_offset=0, scale_params=()):
+def analyse(fn, kind, lift=False, arg_offset=0, scale_params=(), int_dims=None):
     """returns ('ok'|'violation'|'undecided', [messages], paths); with lift=True obligations over the
     function's own parameter scales are recorded in PRECONDS[fn.name] instead of failing"""
-    a = An(fn, kind, lift, arg_offset, scale_params)
+    a = An(fn, kind, lift, arg_offset, scale_params, int_dims)
     try:
-        a.run()
+        for _attempt in range(8):
+            try:
+                a.run(); break
+            except LoopRetry:
+                ex=a.loop_exclude
+                a = An(fn, kind, lift, arg_offset, scale_params, int_dims); a.loop_exclude=ex
     except RecursionError:
         a.undec.append('recursion limit')
     except Exception as e:     # an unmodelled construct makes the function undecided, never violated
